@@ -652,7 +652,10 @@ def align_leaves(u, hyps, ref_terms, code_terms, names=None, label="leaf-argumen
                     break
                 u.r["obligations"] -= 1
             else:
-                if same and fr is not None and r.decl().name() in LEAF_NAMES:
+                # any unmatched application is a lead for search_witness: an inner one
+                # (e.g. sqrt(qa^2+qb^2) of the symmetric rotation path) stops the layering
+                # before the model leaf itself is reached
+                if same and fr is not None:
                     u.unmatched.append((r, same, fr))
         if not subs:
             break
@@ -666,7 +669,8 @@ def search_witness(u, hyps, on_cex, label="leaf-arguments"):
     where the closest code application's arguments differ and replay that
     input.  Only a reproducing witness is kept (search aid, not a verdict)."""
     found = False
-    for r, same, fr in getattr(u, "unmatched", [])[:4]:
+    leads = sorted(getattr(u, "unmatched", []), key=lambda x: x[0].decl().name() not in LEAF_NAMES)
+    for r, same, fr in leads[:4]:
         if sum(1 for c_ in u.r["cex"] if c_.get("reproduced")) >= u.max_cex:
             break
         cands = sorted([(abs(fc - fr), c) for fc, c in same if fc is not None], key=lambda x: x[0])
